@@ -35,7 +35,7 @@ func (c08) Plan(tier string) wk.Plan {
 	}
 	return wk.Plan{
 		Level: "exploration", Cases: n, Chunk: 100, Configs: cfgs, CaseBudget: 30, HangIsViolation: true,
-		Rule:        "case kinds: (demand, 70%) a generated pipeline source -> 1-4 lazy stages -> short-circuit consumer (first, top(n).size/sum, present, indexWhere, single, ~, multiUse of first/top) over sources of 10^3 or 10^6 elements (literal, argument, numbers), decisive element at positions 0..64 and a few large ones, with tick(stage, element) in every closure; on the 1-CPU configuration every stage's event count and largest element must stay within the demand model + 1 element of read-ahead per stage, and the result must equal the model; (errors, 10%) a failing element at offset -2..+3 around the needed prefix: inside -> error, two or more behind -> must not be reported (offset +1 unclaimed); (unconsumed, 10%) building a pipeline without consuming it must produce zero events; (huge, 10%) a short-circuit consumer over numbers(100000000000) must return (watchdog 30 s) with the model's result. After every evaluation the event count must be stable across two polls (no closure calls after Eval returned). On multi-CPU configurations with expensive stages only termination, result, quiescence are asserted; the largest overshoot is reported. Non-trivial = pipeline with >= 2 closure stages and a decisive element > 0; distinct by program text.",
+		Rule:        "case kinds: (demand, 70%) a generated pipeline source -> 1-4 lazy stages -> short-circuit consumer (first, top(n).size/sum, present, indexWhere, single, ~, multiUse of first/top) over sources of 10^3 or 10^6 elements (literal, argument, numbers), decisive element at positions 0..64 and a few large ones, with tick(stage, element) in every closure; on the 1-CPU configuration every stage's event count and largest element must stay within the demand model + 1 element of read-ahead per stage, and the result must equal the model; (errors, 10%) a failing element at offset -2..+3 around the needed prefix: inside -> error, two or more behind -> must not be reported (offset +1 unclaimed); (unconsumed, 10%) building a pipeline without consuming it must produce zero events; in a third of the demand cases and half of the unconsumed ones the pipeline is handed on through a construct that needs no element (try/catch, if, switch, closure call, list/map literal indexed at once, let); (huge, 10%) a short-circuit consumer over numbers(100000000000) must return (watchdog 30 s) with the model's result. After every evaluation the event count must be stable across two polls (no closure calls after Eval returned). On multi-CPU configurations with expensive stages only termination, result, quiescence are asserted; the largest overshoot is reported. Non-trivial = pipeline with >= 2 closure stages and a decisive element > 0; distinct by program text.",
 		Floor:       300,
 		Assumptions: []string{"demand model = tick events of the reference interpreter, whose lists are pull-based with exact minimal demand (no read-ahead)", "the dependency's hand-off makes the in-flight window of a parallel stage timing dependent; exact bounds are asserted where parallel execution is impossible (1 CPU)"},
 	}
@@ -106,6 +106,9 @@ func (c08) Run(c *wk.Case) {
 		}
 		if r.IntN(3) == 0 {
 			lazyOnly = ref.Method(lazyOnly, "merge", c08Stages(c, 30, -1, -1, false), ref.Clo([]string{"p1", "p2"}, ref.Bin("<", tickN(60, ref.Id("p1")), ref.Id("p2"))))
+		}
+		if r.IntN(2) == 0 {
+			lazyOnly, _ = c08PassThrough(c, lazyOnly)
 		}
 		node = ref.Let("p", lazyOnly, ref.Int(5))
 		desc = "unconsumed"
@@ -288,9 +291,13 @@ func c08Pipeline(c *wk.Case, srcN int64, withError bool, expensive bool) (*ref.N
 		}
 	}
 	cur := c08Stages(c, srcN, failAt, k, expensive)
+	passDesc := ""
+	if r.IntN(3) == 0 {
+		cur, passDesc = c08PassThrough(c, cur)
+	}
 	id := ref.Id
 	K := ref.Int(k)
-	desc := fmt.Sprintf("demand k=%d n=%d", k, srcN)
+	desc := fmt.Sprintf("demand k=%d n=%d%s", k, srcN, passDesc)
 	if withError {
 		desc = fmt.Sprintf("error failAt=%d k=%d", failAt, k)
 	}
@@ -404,6 +411,29 @@ func c08Consumer(c *wk.Case, cur *ref.Node, k int64, K *ref.Node, id func(string
 		})), "string")
 	}
 	return cur
+}
+
+// c08PassThrough: the pipeline reaches its consumer through a construct that only hands a value on (try/catch,
+// if, switch, a closure call, a list or map literal that is indexed at once, a let): none of them needs an element.
+func c08PassThrough(c *wk.Case, cur *ref.Node) (*ref.Node, string) {
+	switch c.Rng.IntN(8) {
+	case 0:
+		return ref.Try(cur, ref.ListN()), " via try"
+	case 1:
+		return ref.Try(cur, ref.Clo([]string{"e9"}, ref.ListN(ref.Int(-1)))), " via try-closure"
+	case 2:
+		return ref.If(ref.Bin("<", ref.Method(ref.Id("src"), "size"), ref.Int(5)), cur, ref.ListN()), " via if"
+	case 3:
+		return ref.Call(ref.Clo([]string{"q9"}, ref.Id("q9")), cur), " via closure call"
+	case 4:
+		return ref.Index(ref.ListN(ref.Int(0), cur), ref.Int(1)), " via list literal"
+	case 5:
+		return ref.Member(ref.MapN([]string{"f", "g"}, []*ref.Node{cur, ref.Int(1)}), "f"), " via map literal"
+	case 6:
+		return ref.Switch(ref.Method(ref.Id("src"), "size"), []*ref.Node{ref.Int(0)}, []*ref.Node{cur}, ref.ListN()), " via switch"
+	default:
+		return ref.Call(ref.Clo([]string{"q8"}, ref.Try(ref.Id("q8"), ref.ListN())), cur), " via closure call+try"
+	}
 }
 
 func c08Huge(c *wk.Case) (*ref.Node, string) {
